@@ -33,7 +33,7 @@ BUDGET_S = {"quick": 240, "thorough": 2400}
 PROFILE = dict(
     max_ops=8, minmax=True, alias_arrays=False, whole_array_ops=True, matmul_only=True,
     builtin_set=["<builtin>len", "<builtin>elementwise_abs"], yield_uvec_only=True,
-    assign_all_state=True, dead_code=False, yield_call_free=True,
+    assign_all_state=True, dead_code=False, yield_call_free=True, reuse_ids=True,
     extra_kinds=("arrwhole", "transpose", "matmul", "newarr", "arrwrite"),
 )
 # features switched off by known findings
